@@ -400,6 +400,15 @@ func runC06(t *testing.T, p *Plan) *Outcome {
 		cfg.Password = "adminpw"
 		cfg.AclConfig = filepath.Join(root, "acl.json")
 		var saved map[string]*c06User
+		// a twin without authentication receives every data command the restricted connections get through
+		var twin *Instance
+		var twinClient *Client
+		if p.Profile == "acl" {
+			if tw, err := s.Boot(2, BaseConfig); err == nil {
+				twin = tw
+				twinClient = s.NewTCPClient(twin, "twin")
+			}
+		}
 		inst, err := s.Boot(1, cfg)
 		if err != nil {
 			fail("boot-failed", fmt.Sprint(err))
@@ -694,6 +703,18 @@ func runC06(t *testing.T, p *Plan) *Outcome {
 				if r.Panic != "" {
 					fail("panic/"+strings.ToUpper(name), r.Panic)
 					break
+				}
+				// (the set-algebra handlers answer differently from one execution to the next when an operand has the
+				// wrong type - Go map iteration - and are left out of the comparison, not out of the twin's history)
+				iterDep := strings.HasPrefix(name, "sinter") || strings.HasPrefix(name, "sunion") || strings.HasPrefix(name, "sdiff")
+				if twin != nil && name != "subscribe" && name != "publish" && !isAuthDenial(r) && !r.Closed && !r.NoReply {
+					// authorisation is transparent for a command it lets through: the command that runs is the command
+					// that was sent - same reply, same effect as on a server that requires no authentication
+					tr := twinClient.DoSync(op.Args...)
+					if !iterDep && canonResult(op.Args, r) != canonResult(op.Args, tr) {
+						fail("allowed-but-altered/"+strings.ToUpper(name), fmt.Sprintf("op %d %q by an authorised connection answered %s; the same command history on a server without authentication answers %s", i, op.Args, trunc(r.String(), 120), trunc(tr.String(), 120)))
+						break
+					}
 				}
 				if name == "subscribe" && !r.IsError() {
 					// the connection is now in subscribed mode; take it out again so that later replies line up
